@@ -54,11 +54,15 @@ ASSUMPTIONS = [
 TRUSTED = ["Model/Priceability.v mirrors pabutools/analysis/priceability.py and utils.round_cmp (modelled, not verified)",
            "the exact-rational simplex of the harness is NOT trusted: its witnesses / Farkas multipliers are checked "
            "in Coq by check_witness / check_farkas (proved sound)"]
-EXPLANATION = ("Theorems (unbounded): banker's rounding is monotone and within 1/200; validator complete on exact price "
-               "systems and sound up to 1/100; witness and Farkas checkers sound; the MIP rows of priceable() are sound "
-               "for the definition and complete under the stated hypotheses; infeasible allocations are never priceable. "
-               "Tie: validator vs model and vs verified checkers; priceable's answer vs certified exact decision; "
-               "returned witnesses re-checked.")
+EXPLANATION = ("Theorems (unbounded, 17, closed under the global context): banker's rounding is monotone and within "
+               "1/200; validator complete on exact price systems and sound up to 1/100; check_witness sound and complete, "
+               "Farkas checker sound for any linear system, every price system solves ps_rows; the MIP rows of priceable() "
+               "are sound for the definition and complete under the stated hypotheses (integral data, budget >= 1, <= 10 "
+               "voters; given and searched call); infeasible allocations are never priceable; integrality is necessary. "
+               "Tie: (1) validate_price_system vs verified checkers (oracle) and vs the model (correspondence) on exact "
+               "price systems and perturbations; (2) priceable's answer vs the exact decision certified by "
+               "check_witness / check_farkas; (3) returned witnesses re-checked by the library's validator, the model and "
+               "check_ps_eps; (4) the captured mip model's rows evaluated exactly vs Model.ps_constraints.")
 
 try:  # exact rationals: gmpy2 when present (fast), Fraction otherwise
     from gmpy2 import mpq as _Q
